@@ -1428,7 +1428,7 @@ func (e *Enc) closureAtCreation(fr *Frame, x *ssa.MakeClosure, c *Term, st *Stat
 	// loop invariants of the literal: a `closure <Func> anchor "<same anchor>"` block
 	var lcon *FuncContract
 	if own := e.L.contracts.funcs[con.pkg+"::"+con.key+"@"+spec.anchor]; own != nil {
-		lcon = &FuncContract{pkg: own.pkg, key: own.key, kind: "closure-body", invs: own.invs, variants: own.variants, callbacks: own.callbacks, opts: map[string]string{}}
+		lcon = &FuncContract{pkg: own.pkg, key: own.key, kind: "closure-body", invs: own.invs, variants: own.variants, callbacks: own.callbacks, asserts: own.asserts, props: own.props, opts: map[string]string{}}
 		own.used = true
 	}
 	res, out, sub := e.encodeFunc(fn, args, binds, entry, fr, lcon, nil)
